@@ -318,7 +318,10 @@ def quantRes (o : Oracle) (rtl : Bool) (x x' : Pat) (lzy : Bool) (lo : Nat) (hi 
     else r.eqOnly
   else if lzy = true ∧ lzy' = true ∧ lo = lo' ∧ hi' = some lo ∧ hiAtLeast hi lo = true then
     -- `case NtLazyloop: node.N = node.M`
-    if lo = 1 ∨ (rtl = false ∧ bodyKills o x x' r.sites = true) then r.close.topOf 1 else r.eqOnly.topOf 1
+    if lo = 0 then ⟨[.top], true, 0, [], r.made + 1⟩   -- `x{0,0}`: Empty whatever the body
+    else if lo = 1 ∨ (rtl = false ∧ bodyKills o x x' r.sites = true) then r.close.topOf 1
+    else if rtl = true ∧ r.sites.isEmpty = false then { r with errs := r.errs ++ [.other 40] }
+    else r.eqOnly.topOf 1
   else .fail 20
 
 /-- the rewritten concatenation may carry the bump-along marker (`UpdateBumpalong`, Empty for the
